@@ -114,6 +114,23 @@ def fmtFields (k : Fmt) (f : Fields) (ms : Nat) : Bytes :=
 /-- `Date(t).toUTCString(k)` for an in-range instant -/
 def toUTCString (k : Fmt) (t : Int) : Bytes := fmtFields k (calcF t) (t % 1000).toNat
 
+/-! ## instants with a fraction of a millisecond
+
+`Date` stores a `double`; an instant given in **microseconds** `u` stands for the double `u / 10^6`.
+`Date::calc` starts with `t += 0.0005` and takes *every* field from the floor of that sum, and
+`toString(FULL)` prints `int(1000 * fract(t) + 0.5) % 1000`: both are the instant rounded to the nearest
+millisecond (ties up), which is `roundMs`.  (Before repo commit 4c81461 the date part was taken from the
+unrounded instant: within 0.5 ms before midnight the date was a day behind the time of day.) -/
+
+/-- nearest millisecond, ties up: `floor((t + 0.0005) * 1000)` for `t = u / 10^6` -/
+def roundMs (u : Int) : Int := (u + 500) / 1000
+
+/-- `Date(u / 1e6).splitUTC()` -/
+def calcU (u : Int) : Fields := calcF (roundMs u)
+
+/-- `Date(u / 1e6).toUTCString(k)` -/
+def toUTCStringU (k : Fmt) (u : Int) : Bytes := fmtFields k (calcU u) (roundMs u % 1000).toNat
+
 /-! ## Date::Date(const String&) -/
 
 /-- read `s[i]`; index `length` is the NUL terminator; beyond it the read is out of bounds -/
